@@ -19,24 +19,28 @@ CONSTANTS FieldPool,    \* set of <<type, value>> usable anywhere
           MaxFields
 Observed == IF "TRACE_FILE" \in DOMAIN IOEnv THEN JsonDeserialize(IOEnv.TRACE_FILE) ELSE <<>>
 
-VARIABLES pid, fields, payload, pphase, src
-pvars == <<pid, fields, payload, pphase, src>>
+VARIABLES pid, fields, payload, pphase, src,
+          lay           \* the position layout of the connection's protocol era (programs are encoded under both)
+pvars == <<pid, fields, payload, pphase, src, lay>>
 
 Programs == UNION {[1..n -> FieldPool] : n \in 0..MaxFields}
             \cup {p \o <<l>> : p \in UNION {[1..n -> FieldPool] : n \in 0..(MaxFields - 1)}, l \in LastPool}
 
+RECURSIVE HasPosition(_)
+HasPosition(ty) == ty[1] = "Position" \/ (ty[1] = "PrefixedArray" /\ HasPosition(ty[3]))
 PInit == /\ \/ /\ fields \in Programs /\ pid \in {0, 37, 127, 128, 300} /\ src = 0
-            \/ \E i \in 1..Len(Observed) : /\ src = i /\ pid = Observed[i].id
+               /\ lay \in (IF \E j \in 1..Len(fields) : HasPosition(fields[j][1]) THEN {"XYZ", "XZY"} ELSE {"XYZ"})
+            \/ \E i \in 1..Len(Observed) : /\ src = i /\ pid = Observed[i].id /\ lay = "XYZ"
                                            /\ fields = [j \in 1..Len(Observed[i].fields) |-> <<Observed[i].fields[j][1], Observed[i].fields[j][2]>>]
          /\ payload = <<>> /\ pphase = "chosen"
 PStep == /\ pphase = "chosen"
-         /\ payload' = EncVarNat(pid) \o FlattenSeq([j \in 1..Len(fields) |-> Enc(fields[j][1], fields[j][2])])
-         /\ pphase' = "done" /\ UNCHANGED <<pid, fields, src>>
+         /\ payload' = EncVarNat(pid) \o FlattenSeq([j \in 1..Len(fields) |-> Enc(SubstLayout(fields[j][1], lay), fields[j][2])])
+         /\ pphase' = "done" /\ UNCHANGED <<pid, fields, src, lay>>
 PNext == PStep \/ (pphase = "done" /\ UNCHANGED pvars)
 PSpec == PInit /\ [][PNext]_pvars
 
 \* what the library wrote for its own definitions is the reference encoding, or an admissible alternative
 \* (angles / fixed point within one quantum are normalised by the harness to exact steps)
 ObservedMatches == (pphase = "done" /\ src > 0) => payload = Observed[src].payload
-PEmit == (Emit /\ pphase = "done" /\ src = 0) => PrintT(ToJson([id |-> pid, fields |-> fields, payload |-> payload]))
+PEmit == (Emit /\ pphase = "done" /\ src = 0) => PrintT(ToJson([id |-> pid, fields |-> fields, payload |-> payload, lay |-> lay]))
 =============================================================================
